@@ -1563,6 +1563,104 @@ func c14OfferPure(p *core.Program, r *core.Report) {
 			probs = append(probs, fmt.Sprintf("field %s is assigned by %s and decides a branch of %s: whether an item reaches the registers depends on what was offered before", f.Name(), by, in))
 		}
 	}
+	// a memo of offered items is sound only when it remembers the whole item: a helper that keeps
+	// and tests fields of the counter (a "seen recently" table) must be keyed on the item as offered,
+	// not on a narrowed copy — two different items that agree on the kept part are then one item
+	memo := map[*types.Func]bool{}
+	for _, fi := range offers {
+		own := map[types.Object]bool{}
+		condF := map[types.Object]bool{}
+		ast.Inspect(fi.Decl.Body, func(n ast.Node) bool {
+			switch v := n.(type) {
+			case *ast.AssignStmt:
+				for _, l := range v.Lhs {
+					x := ast.Unparen(l)
+					if ix, ok := x.(*ast.IndexExpr); ok {
+						x = ix.X
+					}
+					if f := fieldOf(fi, x); f != nil {
+						own[f] = true
+					}
+				}
+			case *ast.IfStmt:
+				ast.Inspect(v.Cond, func(m ast.Node) bool {
+					if e, ok := m.(ast.Expr); ok {
+						if f := fieldOf(fi, e); f != nil {
+							condF[f] = true
+						}
+					}
+					return true
+				})
+			}
+			return true
+		})
+		for f := range own {
+			if condF[f] {
+				memo[fi.Obj] = true
+			}
+		}
+	}
+	for _, fi := range offers {
+		if !strings.HasPrefix(fi.Obj.Name(), "Offer") {
+			continue
+		}
+		info := fi.Pkg.TypesInfo
+		items := map[types.Object]bool{}
+		for _, f := range fi.Decl.Type.Params.List {
+			for _, nm := range f.Names {
+				if o := info.Defs[nm]; o != nil {
+					if b, ok := o.Type().Underlying().(*types.Basic); ok && b.Info()&types.IsInteger != 0 {
+						items[o] = true
+					}
+				}
+			}
+		}
+		narrowed := func(e ast.Expr) (string, bool) {
+			c, ok := ast.Unparen(e).(*ast.CallExpr)
+			if !ok || len(c.Args) != 1 {
+				return "", false
+			}
+			tv, ok := info.Types[c.Fun]
+			if !ok || !tv.IsType() {
+				return "", false
+			}
+			id, ok := ast.Unparen(c.Args[0]).(*ast.Ident)
+			if !ok || !items[info.ObjectOf(id)] {
+				return "", false
+			}
+			if typeBits(tv.Type) < typeBits(info.ObjectOf(id).Type()) {
+				return types.ExprString(c), true
+			}
+			return "", false
+		}
+		ast.Inspect(fi.Decl.Body, func(n ast.Node) bool {
+			switch v := n.(type) {
+			case *ast.CallExpr:
+				if fn := calleeFunc(info, v); fn != nil && memo[fn] {
+					for _, a := range v.Args {
+						if txt, bad := narrowed(a); bad {
+							probs = append(probs, fmt.Sprintf("%s hands %s, a narrowed copy of the offered item, to %s, which remembers what was offered and turns repeats away: two different items that agree on the kept bits count as one", fi.Obj.Name(), txt, fn.Name()))
+						}
+					}
+				}
+			case *ast.BinaryExpr:
+				if v.Op == token.EQL || v.Op == token.NEQ {
+					for _, pr := range [][2]ast.Expr{{v.X, v.Y}, {v.Y, v.X}} {
+						if txt, bad := narrowed(pr[0]); bad {
+							x := ast.Unparen(pr[1])
+							if ix, ok := x.(*ast.IndexExpr); ok {
+								x = ix.X
+							}
+							if fieldOf(fi, x) != nil {
+								probs = append(probs, fmt.Sprintf("%s compares %s, a narrowed copy of the offered item, with a remembered value: two different items that agree on the kept bits count as one", fi.Obj.Name(), txt))
+							}
+						}
+					}
+				}
+			}
+			return true
+		})
+	}
 	sort.Strings(probs)
 	fileProbs(r, "C14.offer-pure", "util/hll.(*HyperLogLog).Offer*", p.Pos(offers[0].Decl.Pos()), probs, fmt.Sprintf("%d offering methods branch on no field they assign", len(offers)))
 }
